@@ -175,11 +175,57 @@ def run_cases():
     finally:
         if g is not None:
             g.cleanup()
+    # every bundled client variant (sync/async x plain/OpenTelemetry with a tracer) delivers the caller's values - also when the fields
+    # are named like things a client might want to treat specially (credentials), at any depth, in lists, next to an upload
+    for variant, opts in (("async", {}), ("sync", dict(async_client=False)), ("async-opentelemetry-with-tracer", dict(opentelemetry_client=True)),
+                          ("sync-opentelemetry-with-tracer", dict(async_client=False, opentelemetry_client=True))):
+        g = None
+        name = f"client-variant:{variant}:nested-inputs-with-credential-like-field-names"
+        try:
+            g = generate_client(SCHEMA_CRED, QUERIES_CRED, **opts)
+            schema = G.build_schema(SCHEMA_CRED)
+            it = g.module("input_types")
+            sent = []
+
+            def handler(request):
+                sent.append(json.loads(request.content))
+                return httpx.Response(200, json={"data": {"login": 1}})
+            mod = g.module("client")
+            kw = dict(tracer="pyvc") if "opentelemetry" in variant else {}
+            cred = it.Credentials(user="u", password="p1", api_token="t1", secret="s1", next=it.Credentials(password="p2", otp_token="o2"))
+            args = dict(cred=cred, creds=[it.Credentials(password="p3"), it.Credentials(user="v", api_key="k4")], password="top")
+            for call_no in (1, 2):          # the same argument objects are used for a second call (a retry)
+                if variant.startswith("sync"):
+                    client = mod.Client(url="http://x/graphql", http_client=httpx.Client(transport=httpx.MockTransport(handler)), **kw)
+                    client.login(**args)
+                else:
+                    client = mod.Client(url="http://x/graphql", http_client=httpx.AsyncClient(transport=httpx.MockTransport(handler)), **kw)
+                    asyncio.run(client.login(**args))
+                got = _coerced(schema, sent[-1])
+                expect = {"cred": {"user": "u", "password": "p1", "apiToken": "t1", "secret": "s1", "next": {"password": "p2", "otpToken": "o2"}},
+                          "creds": [{"password": "p3"}, {"user": "v", "apiKey": "k4"}], "password": "top"}
+                if got != expect:
+                    rep["outcome"][name] = {"call": call_no, "sent": sent[-1].get("variables"), "expected": expect}
+                    rep["cases"].append(name)
+                    break
+            else:
+                rep["outcome"][name] = "ok"
+        except Exception as e:   # noqa
+            rep["outcome"][name] = f"{type(e).__name__}: {str(e)[:300]}"
+            rep["cases"].append(name)
+        finally:
+            if g is not None:
+                g.cleanup()
     if rep["cases"]:
         rep["failed"].append("bounded.variables")
     return rep
 
 
+SCHEMA_CRED = """
+input Credentials { user: String password: String apiToken: String apiKey: String secret: String otpToken: String next: Credentials }
+type Query { login(cred: Credentials, creds: [Credentials!], password: String): Int }
+"""
+QUERIES_CRED = "query Login($cred: Credentials, $creds: [Credentials!], $password: String) { login(cred: $cred, creds: $creds, password: $password) }"
 SCHEMA_EXT = """
 enum Color { RED }
 input Filter { color: Color }
